@@ -3,6 +3,7 @@ CONSTANTS
   AckMode = "shaped"
   ThrMode = "fixed"
   EmptyMode = "fixed"
+  RstMode = "pinned"
   CfgSet <- SchedCfgsB
   Ids = {1, 2}
   Hosts = {"h0", ""}
